@@ -20,3 +20,17 @@ Check c06_admitted_is_served : forall st rpc k h,
   admitted h = true -> call true st rpc k h = serve st rpc k.
 Check c06_served_is_never_an_access_error : forall st rpc k,
   snd (serve st rpc k) <> UNAUTHENTICATED /\ snd (serve st rpc k) <> PERMISSION_DENIED.
+From KD Require Model.Perm Model.Broker Model.BrokerRun Model.Api Model.ApiRun Model.Viss.
+Check c06_viss_token_required : forall st path,
+  Viss.viss_get st Viss.TokNone path = inr Viss.VTokenMissing /\ Viss.viss_get st Viss.TokBad path = inr Viss.VTokenInvalid
+  /\ (forall x, Viss.viss_set st Viss.TokNone path x = (st, Viss.SetErr Viss.VTokenMissing))
+  /\ (forall x, Viss.viss_set st Viss.TokBad path x = (st, Viss.SetErr Viss.VTokenInvalid))
+  /\ Viss.viss_subscribe st Viss.TokNone path = (st, inr Viss.VTokenMissing)
+  /\ Viss.viss_subscribe st Viss.TokBad path = (st, inr Viss.VTokenInvalid).
+Check c06_viss_disabled_get : forall st path d,
+  Api.too_long path = false ->
+  (Viss.viss_get st Viss.TokOpen path = inl d <-> Api.v2_get_value st Perm.allow_all (Api.SigPath path) = Api.RValue d).
+Check c06_viss_disabled_get_refusal : forall st path e,
+  Viss.viss_get st Viss.TokOpen path = inr e -> e = Viss.VNotFound.
+Check c06_viss_disabled_subscribe : forall st path st' e,
+  Viss.viss_subscribe st Viss.TokOpen path = (st', inr e) -> e <> Viss.VTokenMissing /\ e <> Viss.VTokenInvalid.
